@@ -77,7 +77,7 @@ class Model(object):
         self.it_role = dict((j + 1, r) for j, r in enumerate(list(roles)[0]))
         acc = {}
         for e in rets:
-            for ce in Q.calls_in(e.path.events, lambda c: not c.local and c.name in ("extend", "push", "extend_from_slice", "append")):
+            for ce in Q.calls_in(Q.fold_extend_loops(ev, e.path.events), lambda c: not c.local and c.name in ("extend", "push", "extend_from_slice", "append")):
                 a = ce[3]
                 if len(a) < 2:
                     continue
